@@ -9,7 +9,8 @@
    condition expression.  The resolver must accept exactly the accepting states' strings (C02) and produce exactly
    `Parts` (C09); everything else is a SyntaxError. *)
 EXTENDS CondLang
-CONSTANTS MaxTok
+CONSTANTS MaxTok,
+          Alphabet     \* the tokens the generator may feed (a subset of AllToks; AllToks for the full language)
 Modal == {"M", "S", "K"}
 Norm(w) == CASE w = "M" -> "MUSS" [] w = "S" -> "SOLL" [] w = "K" -> "KANN" [] w = "U" -> "U" [] w = "X" -> "X" [] w = "O" -> "O"
 AllToks == Modal \cup Toks
@@ -54,7 +55,7 @@ Feed(t) ==
           /\ UNCHANGED kind
      ELSE ReadCond(t) /\ UNCHANGED <<kind, done, ind>>
 
-Next == \E t \in AllToks : Feed(t)
+Next == \E t \in Alphabet : Feed(t)
 Spec == Init /\ [][Next]_vars
 
 \* accepting configurations = the documented forms
